@@ -344,3 +344,101 @@ func (g *Gen) twoAssetsProgram() *GProgram {
 	}
 	return g.prog
 }
+
+// varReuse: ONE monetary variable used in several places of a script (two saves, two caps, two
+// sends): whatever one use does to the number must not be visible to the next.
+func (g *Gen) varReuseProgram(mode int, tail bool) *GProgram {
+	asset := "USD"
+	g.asset = asset
+	g.smallBalances([]string{"a", "b"}, asset, 40)
+	n := bi(int64(g.r.Intn(60)))
+	if g.r.Chance(1, 6) {
+		n = new(big.Int).Add(new(big.Int).Lsh(bi(1), 64), bi(int64(g.r.Intn(50))))
+	}
+	g.prog.Vars = append(g.prog.Vars, &GVarDecl{Type: "monetary", Name: "r"})
+	g.rawVars["r"] = asset + " " + n.String()
+	use := func() *GExpr { return &GExpr{Kind: XVar, S: "r"} }
+	switch mode % 3 {
+	case 0: // two saves of the same variable, then the accounts are drawn
+		g.prog.Stmts = append(g.prog.Stmts,
+			&GStmt{Kind: StSave, Sent: &GSent{E: use()}, Acct: acct("a")},
+			&GStmt{Kind: StSave, Sent: &GSent{E: use()}, Acct: acct("b")})
+		if g.r.Chance(1, 2) {
+			g.prog.Stmts = append(g.prog.Stmts, &GStmt{Kind: StSend, Sent: &GSent{E: lit(asset, bi(int64(g.r.Intn(20))))}, Src: srcAcct("world"), Dst: dstAcct("a")},
+				&GStmt{Kind: StSave, Sent: &GSent{E: use()}, Acct: acct("a")})
+		}
+		sent := &GSent{E: lit(asset, bi(int64(g.r.Intn(50))))}
+		if g.r.Chance(1, 3) {
+			sent = &GSent{All: true, E: &GExpr{Kind: XAsset, S: asset}}
+		}
+		g.prog.Stmts = append(g.prog.Stmts, &GStmt{Kind: StSend, Sent: sent, Src: &GSource{Kind: SrcInorder, Subs: []*GSource{srcAcct("a"), srcAcct("b")}}, Dst: dstAcct("c")})
+	case 1: // the same variable as the cap of two destination clauses
+		total := bi(int64(g.r.Intn(150)))
+		dst := &GDest{Kind: DstInorder, Clauses: []*GClause{
+			{Cap: use(), To: &GKod{To: dstAcct("a")}},
+			{Cap: use(), To: &GKod{To: dstAcct("b")}}},
+			Remaining: &GKod{Kept: true}}
+		if g.r.Chance(1, 2) {
+			dst.Clauses = append(dst.Clauses, &GClause{Cap: use(), To: &GKod{To: dstAcct("c")}})
+		}
+		if g.r.Chance(1, 3) {
+			dst.Remaining = &GKod{To: dstAcct("d")}
+		}
+		g.prog.Stmts = append(g.prog.Stmts, &GStmt{Kind: StSend, Sent: &GSent{E: lit(asset, total)}, Src: srcAcct("world"), Dst: dst})
+	default: // sent twice, and as a cap in a source
+		g.prog.Stmts = append(g.prog.Stmts,
+			&GStmt{Kind: StSend, Sent: &GSent{E: use()}, Src: &GSource{Kind: SrcInorder, Subs: []*GSource{srcAcct("a"), srcAcct("world")}}, Dst: dstAcct("c")},
+			&GStmt{Kind: StSend, Sent: &GSent{E: lit(asset, bi(int64(g.r.Intn(80))))}, Src: &GSource{Kind: SrcInorder, Subs: []*GSource{{Kind: SrcCapped, Cap: use(), From: srcAcct("b")}, srcAcct("world")}}, Dst: dstAcct("d")},
+			&GStmt{Kind: StSend, Sent: &GSent{E: use()}, Src: srcAcct("world"), Dst: dstAcct("e-x_1")})
+	}
+	if tail && g.r.Chance(1, 2) {
+		g.prog.Stmts = append(g.prog.Stmts, &GStmt{Kind: StCall, Call: &GFnCall{Name: "set_tx_meta", Args: []*GExpr{{Kind: XString, S: "r"}, use()}}})
+	}
+	return g.prog
+}
+
+// overdraftOrigin: the debt of an account is read through overdraft() / its balance through balance()
+// (variable origins), then the same account - literal or through a variable - is used as a source.
+// Reading a balance must not change it.
+func (g *Gen) overdraftOriginProgram() *GProgram {
+	asset := "USD"
+	g.asset = asset
+	g.flag = true
+	g.smallBalances([]string{"b"}, asset, 30)
+	debt := int64(1 + g.r.Intn(60))
+	g.bal["a"] = map[string]*big.Int{asset: bi(-debt)}
+	if g.r.Chance(1, 4) {
+		g.bal["a"][asset] = bi(int64(g.r.Intn(20)))
+	}
+	fn := "overdraft"
+	if g.r.Chance(1, 3) {
+		fn = "balance"
+		g.bal["a"][asset] = bi(int64(g.r.Intn(40)))
+	}
+	g.prog.Vars = append(g.prog.Vars, &GVarDecl{Type: "monetary", Name: "o",
+		Origin: &GFnCall{Name: fn, Args: []*GExpr{acct("a"), {Kind: XAsset, S: asset}}}})
+	addr := acct("a")
+	if g.r.Chance(1, 3) {
+		g.prog.Vars = append(g.prog.Vars, &GVarDecl{Type: "account", Name: "who"})
+		g.rawVars["who"] = "a"
+		addr = &GExpr{Kind: XVar, S: "who"}
+	}
+	var src *GSource
+	switch g.r.Intn(3) {
+	case 0:
+		src = &GSource{Kind: SrcOverdraft, E: addr, Bounded: lit(asset, bi(int64(g.r.Intn(40))))}
+	case 1:
+		src = &GSource{Kind: SrcInorder, Subs: []*GSource{{Kind: SrcAccount, E: addr}, srcAcct("b")}}
+	default:
+		src = &GSource{Kind: SrcOverdraft, E: addr, Bounded: &GExpr{Kind: XVar, S: "o"}}
+	}
+	sent := &GSent{E: lit(asset, bi(int64(1+g.r.Intn(40))))}
+	if g.r.Chance(1, 4) {
+		sent = &GSent{All: true, E: &GExpr{Kind: XAsset, S: asset}}
+	}
+	g.prog.Stmts = append(g.prog.Stmts, &GStmt{Kind: StSend, Sent: sent, Src: src, Dst: dstAcct("c")})
+	if g.r.Chance(1, 2) {
+		g.prog.Stmts = append(g.prog.Stmts, &GStmt{Kind: StCall, Call: &GFnCall{Name: "set_tx_meta", Args: []*GExpr{{Kind: XString, S: "o"}, {Kind: XVar, S: "o"}}}})
+	}
+	return g.prog
+}
